@@ -59,7 +59,10 @@ class Controller:
         self.cmdbuf = {0: b"", 1: b""}
         self.delcmds = []         # parsed delivery commands not yet answered: dict(chan, delnum, id, sender, rcpt)
         self.framer = repframe.Framer()
-        self.logfile = os.path.join(workdir, "send.log")
+        # the daemon's activity record (qmail-log(5)); below the traced root so that every line is an event in the same stream
+        self.logfile = os.path.join(tree.root, "verif-send.log") if os.environ.get("VERIF_LOG_EVENTS") else os.path.join(workdir, "send.log")
+        if os.path.exists(self.logfile):
+            os.unlink(self.logfile)
         self.seq = 0
         self.qdir = os.path.join(tree.root, "queue")
         self.timeout = 60.0
